@@ -8,6 +8,7 @@ import (
 	_ "crypto/sha512"
 	"encoding/base64"
 	"fmt"
+	"strings"
 
 	"github.com/beevik/etree"
 	dsig "github.com/russellhaering/goxmldsig"
@@ -93,6 +94,7 @@ type SigSpec struct {
 	DSPrefix  string // "ds" (default when empty and !DSDefault), any other prefix
 	DSDefault bool   // use a default-namespace declaration for the signature
 	NoNSDecl  bool   // the Signature element carries no xmlns declaration (an ancestor declares the ds prefix)
+	NSCharRef bool   // spell the '#' of the XML-DSig namespace URI as a character reference in the serialised signature
 	RefURI    *string
 	// BreakDigest / BreakSig corrupt the produced signature (tamper classes).
 	BreakDigest, BreakSig bool
@@ -272,7 +274,11 @@ func SignSlot(r *Rendered, slot *Slot, spec *SigSpec) error {
 	case 2:
 		off = slot.Last
 	}
-	r.Splice(off, ElementString(sig))
+	text := ElementString(sig)
+	if spec.NSCharRef {
+		text = strings.ReplaceAll(text, `xmldsig#"`, `xmldsig&#35;"`)
+	}
+	r.Splice(off, text)
 	return nil
 }
 
